@@ -103,3 +103,9 @@ Print Assumptions C15_nonvacuous.
 Theorem C15_command_consults_only_flags_and_file : sandbox_ambient_refs = [].
 Proof. vm_compute. reflexivity. Qed.
 Print Assumptions C15_command_consults_only_flags_and_file.
+
+
+(* ... and the flags the command registers are the two documented ones. *)
+Theorem C15_command_flags : map fst sandbox_flags = ["no-new-privs"; "policy"]%string.
+Proof. vm_compute. reflexivity. Qed.
+Print Assumptions C15_command_flags.
